@@ -126,7 +126,8 @@ theorem sampleRows_shape (cfg : Cfg) (hv : cfg.variant = .fitKeep) (hm : cfg.mod
       · exact keepAll_shape _
       · rename_i hfit
         have hlt : sfDenOf g < sfNumOf g := by
-          simp only [fitShortcut, hv, beq_self_eq_true, Bool.true_and, decide_eq_true_eq] at hfit
+          have hne : (Variant.fitKeep != Variant.orig) = true := by decide
+          simp only [fitShortcut, hv, hne, Bool.true_and, decide_eq_true_eq] at hfit
           omega
         have hd := sfDenOf_pos g
         split
